@@ -452,32 +452,41 @@ def moveConns (g : Conn.G) : List (Nat × Nat) → Conn.G
       else if x = co then []
       else (g.conns x).map (fun y => if y = co then cn else y) } rest
 
-/-- `Workflow.replace_child(label, new)` for an unconnected parentless `new` whose channel labels
-are those of the child it replaces (anything else is refused before anything changes — C14):
-first both panels are read (value links of the composite IO) — a panel that cannot be built
-raises before anything changed —, then the composite swaps the nodes (the replacement goes to
-the END of `children` under the old label, the replaced node is free), then `_rebuild_data_io`
-builds both panels — they are views of
-the children's channels, nothing has to be moved — and if one of them cannot be built the swap
-is undone at the composite level (which puts the OLD child at the end) and the error is raised. -/
-def replaceChild (w : W) (label : String) (new : Child) : W × Res :=
+/-- `Workflow.replace_child(label, new)` for an unconnected parentless `new` that has at least the
+channels of the child it replaces (anything else is refused by `copy_io` before anything
+changes — C14) and carries a label of its OWN.  In this order: both panels are read (value links
+of the composite IO) — a panel that cannot be built raises `TypeError`; then
+`_ensure_io_survives_replacement` works out the keys the IO WOULD have once the replacement sits
+in under the OLD child's label with its connections (channels only the replacement has are
+unconnected; the maps may mention them) and raises `ValueError` if two of them coincide — all
+while nothing has changed; then the composite swaps the nodes (the replacement goes to the END
+of `children` under the old label and takes the connections over, the replaced node is free) and
+`_rebuild_data_io` finds nothing to move.
+`ownLabelCheck = true` is the variant whose up-front check keys the replacement's channels by the
+label it carries at that moment: a clash it overlooks surfaces after the swap, when it is too late. -/
+def W.buildable (w : W) : Bool := (w.panel .inputs).isSome && (w.panel .outputs).isSome
+
+/-- the replacement has (at least) the channels of the child it replaces -/
+def superset (old new : Child) : Bool :=
+  (old.ins.map Prod.fst).all (new.ins.map Prod.fst).contains && (old.outs.map Prod.fst).all (new.outs.map Prod.fst).contains
+
+/-- the world after the composite-level swap, the replacement filed under `lab` -/
+def replaceSwap (w : W) (old : Child) (label lab : String) (new : Child) : W :=
+  let rest := w.children.filter (fun d => !(d.label == label))
+  let pairs := old.ins.filterMap (fun lc => (new.ins.lookup lc.1).map fun cn => (lc.2, cn)) ++
+    old.outs.filterMap (fun lc => (new.outs.lookup lc.1).map fun cn => (lc.2, cn))
+  let g1 := registerChans (registerChans w.g .dataIn (new.ins.map Prod.snd)) .dataOut (new.outs.map Prod.snd)
+  { w with children := rest ++ [{ new with label := lab }], g := moveConns g1 pairs }
+
+def replaceChild (ownLabelCheck : Bool) (w : W) (label : String) (new : Child) : W × Res :=
   match w.children.find? (fun d => d.label == label) with
   | none => (w, .refused)
   | some old =>
-    if old.ins.map Prod.fst ≠ new.ins.map Prod.fst || old.outs.map Prod.fst ≠ new.outs.map Prod.fst then
-      (w, .refused)
-    -- the value links of the composite IO are collected first: `for … in self.inputs` and, per
-    -- output channel of the replaced node, `… in self.outputs` — a panel that cannot be built
-    -- raises here, before anything has changed
-    else if (w.panel .inputs).isNone || (!old.outs.isEmpty && (w.panel .outputs).isNone) then
-      (w, .typeErr)
-    else
-      let rest := w.children.filter (fun d => !(d.label == label))
-      let pairs := (old.ins.map Prod.snd).zip (new.ins.map Prod.snd) ++ (old.outs.map Prod.snd).zip (new.outs.map Prod.snd)
-      let g1 := registerChans (registerChans w.g .dataIn (new.ins.map Prod.snd)) .dataOut (new.outs.map Prod.snd)
-      let w' := { w with children := rest ++ [{ new with label := label }], g := moveConns g1 pairs }
-      if (w'.panel .inputs).isSome && (w'.panel .outputs).isSome then (w', .ok)
-      else ({ w with children := rest ++ [old], g := g1 }, .typeErr)
+    if !superset old new then (w, .refused)
+    else if (w.panel .inputs).isNone || (!old.outs.isEmpty && (w.panel .outputs).isNone) then (w, .typeErr)
+    else if !(replaceSwap w old label (if ownLabelCheck then new.label else label) new).buildable then (w, .valueErr)
+    else if (replaceSwap w old label label new).buildable then (replaceSwap w old label label new, .ok)
+    else (replaceSwap w old label label new, .typeErr)   -- only reachable with `ownLabelCheck`: half-replaced
 
 /-! ## Re-labelling a held child (`wf.add_child(child, label=…)`, `wf[label] = child`, `wf.label = child`) -/
 
@@ -629,7 +638,7 @@ def step (w : W) : Op → W × Res
   | .read .outputs => let r := readMap w.omap; ({ w with omap := r.1 }, r.2)
   | .edit .inputs e => let r := editStored w.imap e; ({ w with imap := r.1 }, r.2)
   | .edit .outputs e => let r := editStored w.omap e; ({ w with omap := r.1 }, r.2)
-  | .replace l c => replaceChild w l c
+  | .replace l c => replaceChild false w l c
   | .relabel o n => relabelChild false w o n
   | .pull l f => (pullChild true w l f, .ok)
   | .load l c => loadChild false w l c
